@@ -10,15 +10,20 @@ LEAN_AUDIT = "Dashu.Audit.C19"
 JOBS = 12
 READY = True
 
-REFINED = ["serde UBig/IBig binary (LE bytes, sign in the length parity) encode/decode",
+REFINED = ["serde UBig/IBig binary (LE bytes, sign in the length parity) encode/decode; the payload is C07's word-level to_le_bytes for every W",
            "postcard varint / zig-zag / length-prefixed bytes", "serde_json string quoting (plain characters)",
            "UBig/IBig/RBig/Relaxed text round trip (Display -> JSON string -> from_str_with_radix_prefix [+ reduce])",
+           "Repr<B>/FBig text round trip (Display -> JSON string -> from_str_native), bases 2..36, on C08's proved printer/parser model",
            "RBig/Relaxed binary + text decode: reduce / reduce2 canonical",
-           "Repr<B>/FBig binary decode: Repr::new normalisation canonical",
+           "Repr<B>/FBig binary + text decode: Repr::new normalisation canonical",
+           "word-size independence of + - * sqr (C01), / % div_rem (C02), & | ^ << >> (C09), print / parse / LE bytes (C07) as corollaries",
            "log2_fp8 / ceil_log2_fp8 (no_std estimator): table + both functions, all u16 inputs"]
-FRONTIER = ["float text (Display without precision / from_str_native): mirrored and run, round trip not proved",
-            "integer kernels of C01/C02/C09/C07 keep the frontier of those properties",
-            "std log2 estimator (f32::log2 / next_up / next_down): replicated with Lean's compiled Float32, bounds checked exactly per call"]
+FRONTIER = ["std/no_std and debug/release independence: no model-level statement (features and profile do not occur in the models); decided by "
+            "replaying every property's generator in 3 (quick) / 8 (thorough) builds",
+            "integer / float / rational kernels below the frontier of the properties that own them",
+            "log2 estimators: the f32 steps around the no_std table and the std f32::log2 path are replicated with Lean's compiled Float32 "
+            "(not in the kernel); every pair of bounds is decided exactly per call, and a property-level judge accepts other valid bounds",
+            "serde_json / postcard themselves (modelled from their sources)"]
 RULE = ("clause 1: the case generators of C01, C02, C09, C05, C07, C08, C06, C12, C13, C03, C10, C04, C14 (integer ring / division / "
         "bits / comparison / text / conversions / number theory / modular / float and rational arithmetic / cross-type), sampled per "
         "run (+ operands sized in 32-bit words around the word-count thresholds), wrapped as `cfgall <group>/<op> …`: every configuration of the run evaluates the case, the front demands byte-"
@@ -78,17 +83,70 @@ def nontrivial(c):
     return "cfg.self" not in c.args
 
 
+# ---------------------------------------------------------------------------------- property-level judge (clause 2)
+
+def _f32_value(bits):
+    """exact value of a finite f32 bit pattern as a Fraction, None for inf/nan"""
+    from fractions import Fraction
+    sign = -1 if bits >> 31 else 1
+    e = (bits >> 23) & 0xff
+    m = bits & 0x7fffff
+    if e == 0xff:
+        return None
+    if e == 0:
+        return sign * Fraction(m, 1 << 149)
+    return sign * Fraction((1 << 23) | m) * Fraction(2) ** (e - 150)
+
+def _encloses(lb, ub, x):
+    """lb <= log2(x) <= ub for f32 bit patterns, decided with 150-digit decimal arithmetic and a 1e-100 margin
+    (None = too close to call)"""
+    import decimal
+    if x == 0:
+        return lb == 0xff800000 and ub == 0xff800000
+    vl, vu = _f32_value(lb), _f32_value(ub)
+    if vl is None or vu is None:
+        return False
+    ctx = decimal.Context(prec=200)
+    L = ctx.divide(ctx.ln(decimal.Decimal(x)), ctx.ln(decimal.Decimal(2)))
+    eps = decimal.Decimal(10) ** -100
+    dl = ctx.subtract(L, ctx.divide(decimal.Decimal(vl.numerator), decimal.Decimal(vl.denominator)))
+    du = ctx.subtract(ctx.divide(decimal.Decimal(vu.numerator), decimal.Decimal(vu.denominator)), L)
+    if x & (x - 1) == 0:          # power of two: log2 is the integer, equality is allowed
+        k = x.bit_length() - 1
+        return vl <= k <= vu
+    if abs(dl) < eps or abs(du) < eps:
+        return None
+    return dl > 0 and du > 0
+
+def judge(c, impl, model):
+    """clause 2 promises *bounds*, not particular bounds: when an estimator answers differently from the Lean
+    replica but its bounds still enclose log2 exactly on the input, the property holds there (the correspondence of
+    the replica is what broke)"""
+    try:
+        if c.op != "cfg" or len(c.args) < 3 or not c.args[1].startswith("lg.") or not impl.startswith("ok "):
+            return None
+        op, a = c.args[1], c.args[2:]
+        body = impl[3:].strip()
+        if op == "lg.range":
+            lo, hi = int(a[0][2:]), int(a[1][2:])
+            items = body.split(",")
+            if len(items) != hi - lo:
+                return None
+            for x, it in zip(range(lo, hi), items):
+                l, u = it.split(":")
+                if _encloses(int(l, 16), int(u, 16), x) is not True:
+                    return None
+            return "holds"
+        x = abs(int(a[-1].lstrip("-"), 16))
+        l, u = body.split(" ")[:2]
+        return "holds" if _encloses(int(l, 16), int(u, 16), x) is True else None
+    except Exception:
+        return None
+
+
 # ---------------------------------------------------------------------------------- findings of other properties
 
-def inherited(args, impl, model, op):
-    """a disagreement between implementation and model that is recorded for the property owning the
-    inner op, reproduced identically in every configuration (not a configuration dependence)"""
-    if impl.startswith("config-disagree") or impl.startswith("build-failed"):
-        return False
-    inner = args if op == "cfgall" else args[1:]
-    if not inner:
-        return False
-    c = Case(inner[0].split("/")[-1], inner[1:])      # `<group>/<op>` -> the op as its property knows it
+def _other_finding(c, impl, model):
     for f in core.load_findings():
         if f["property"] == "C19":
             continue
@@ -103,6 +161,29 @@ def inherited(args, impl, model, op):
             continue
     return False
 
+def inherited(args, impl, model, op):
+    """a disagreement between implementation and model that is recorded for the property owning the inner op.
+    Either every configuration shows it identically, or the configurations differ only because each of them
+    shows a recorded finding of that property or the model's answer (e.g. a `debug_assert!` recorded for C06/C16
+    fires in dev builds while release builds return the value)"""
+    if impl.startswith("build-failed"):
+        return False
+    inner = args if op == "cfgall" else args[1:]
+    if not inner:
+        return False
+    c = Case(inner[0].split("/")[-1], inner[1:])      # `<group>/<op>` -> the op as its property knows it
+    if impl.startswith("config-disagree "):
+        parts = [p.split("=", 1) for p in impl[len("config-disagree "):].split(" || ")]
+        if not parts or any(len(p) != 2 for p in parts):
+            return False
+        answers = [a for _, a in parts]
+        # a *value* difference between configurations is never inherited: all `ok …` answers must coincide
+        oks = set(a for a in answers if a.startswith("ok "))
+        if len(oks) > 1:
+            return False
+        return all(a == model or _other_finding(c, a, model) for a in answers)
+    return _other_finding(c, impl, model)
+
 
 def foreign_uniform(args, impl, model):
     """an op of another property (`<group>/<op>`) on which every configuration gives the same answer and the
@@ -114,24 +195,6 @@ def foreign_uniform(args, impl, model):
     if impl.startswith(("config-disagree", "build-failed", "crash", "bad-", "hang", "missing")):
         return False
     return "!model-" not in model and not model.startswith("bad-")
-
-
-def split_estimate(args):
-    """f.split of a float with exponent + digits == -2 (the boundary of the `smaller_than_one` estimate, where a
-    digit bound that is one too large changes the path)"""
-    inner = args if (args and "/" in args[0]) else args[1:]
-    if not inner or inner[0].split("/")[-1] != "f.split":
-        return False
-    for a in inner[1:]:
-        m = re.fullmatch(r"f:(\d+):(-?[0-9a-f]+):(-?\d+):(\d+):\w+", a)
-        if m:
-            B, sig, e = int(m.group(1)), abs(int(m.group(2), 16)), int(m.group(3))
-            if sig == 0:
-                return False
-            while sig % B == 0:
-                sig //= B; e += 1
-            return e + digits_in(sig, B) == -2
-    return False
 
 
 # ---------------------------------------------------------------------------------- input classes of the C19 findings
@@ -523,6 +586,29 @@ WRAP = [("c01", 700, 8000), ("c02", 700, 8000), ("c09", 400, 5000), ("c05", 300,
         ("c14", 300, 3000)]
 GROUPS = ("int", "div", "bits", "text", "conv", "nt", "float", "ratio", "cross")
 
+class _GenTimeout(Exception):
+    pass
+
+def _collect(gen_fn, seconds):
+    """list(gen_fn()) with a wall-clock limit (a neighbour's generator driven by a different random stream than
+    its own check uses may not terminate, e.g. a rejection-sampling loop); returns what was produced so far"""
+    import signal
+    out = []
+    def on_alarm(signum, frame):
+        raise _GenTimeout()
+    old = signal.signal(signal.SIGALRM, on_alarm)
+    signal.setitimer(signal.ITIMER_REAL, seconds)
+    try:
+        for c in gen_fn():
+            out.append(c)
+    except _GenTimeout:
+        core.log("C19: a wrapped generator did not finish within %ds; using the %d cases produced so far" % (seconds, len(out)))
+    finally:
+        signal.setitimer(signal.ITIMER_REAL, 0)
+        signal.signal(signal.SIGALRM, old)
+    return out
+
+
 def wrap_other(rng, tier, confs):
     """every property's case generator, replayed in every configuration: `cfgall <group>/<op> …` (all builds
     byte-identical and equal to the model at both word sizes); the log2_bounds family per configuration"""
@@ -534,7 +620,8 @@ def wrap_other(rng, tier, confs):
             if group not in GROUPS:
                 continue
             sub = random.Random(rng.getrandbits(64))
-            cases = list(M.generate(sub, "quick" if tier == "quick" else "thorough"))
+            cases = _collect(lambda: M.generate(sub, "quick" if tier == "quick" else "thorough"),
+                             60 if tier == "quick" else 600)
         except Exception as e:                       # a broken neighbour must not disable C19
             core.log("C19: generator of %s unavailable (%s)" % (name, e))
             continue
@@ -543,7 +630,9 @@ def wrap_other(rng, tier, confs):
             op, args = c.op, c.args
             if op == "ns" and len(args) >= 2:        # C12's own no_std replay: take the inner op, every configuration asks it itself
                 op, args = args[1], args[2:]
-            if W_DEPENDENT.search(op) or any(a.startswith("w:") for a in args):
+            if W_DEPENDENT.search(op) or any(a.startswith("w:") or "words:" in a for a in args):
+                continue
+            if any(len(a) <= 6 and "dbg" in a for a in args):      # `{:?}` / `{:#?}` elide digits by word-sized chunks: about the representation
                 continue
             if tier == "quick" and sum(len(a) for a in args) > 12000:
                 continue
